@@ -24,6 +24,8 @@ Next ==
   \/ \E P \in 1..2, m \in Mods : /\ Assert(LET r == Attach(st, P, m) IN \A t \in r.posts : OthersUnmoved(st, t, m), "attach moved another module")
                                  /\ Do("attach", <<P, m>>, Attach(st, P, m), m)
   \/ \E P \in 1..2, m \in 3..NM : st.parent[m] = 0 /\ Do("new_module", <<P, m>>, Attach(st, P, m), 17 + m)
+  \/ \E P \in 1..2, m \in 3..NM : /\ Assert(LET r == AttachEnd(st, P, m) IN \A t \in r.posts : OthersUnmoved(st, t, m), "attach moved another module")
+                                  /\ Do("attach_end", <<P, m>>, AttachEnd(st, P, m), 19 + m)
   \/ \E P \in 1..2 : Do("attach_none", <<P>>, AttachNone(st, P), 23)
   \/ \E P \in 1..2, q \in 0..NP : Do("attach_pattern", <<P, q>>, AttachPattern(st, P, q), 29 + q)
   \/ \E P \in 1..2, it \in Items : Do("iadd", <<P, it>>, IAdd(st, P, it), 31 + Len(it))
